@@ -178,6 +178,18 @@ CLAIMED = {
         technique="Rocq proof (induction over arbitrary socket behaviours) + Python-ast shape translator + in-Coq differential correspondence on scripted sockets + loopback transfers",
         design="5/C10",
     ),
+    "C17": dict(
+        text="Theorems (Props/C17.v) about the SECS-I line model over the block codec of C16 and the line characters regenerated from secsi/protocol.py: the receiving side consumes "
+             "bytes, so the chunking of the line cannot matter (C17_chunking_irrelevant); EVERY valid block (any header, 0-244 data bytes), announced by ENQ, in any chunking: EOT, "
+             "delivered exactly once with identical header and data, ACK (C17_valid_block_received, from the unbounded block round trip); one changed byte anywhere behind the "
+             "length byte: EOT, NAK, nothing delivered (C17_corrupted_block_refused, from C16's corruption theorem); sender and receiver together, a message of any number of "
+             "blocks: ENQ/EOT/block/ACK per block, all delivered once in order, the call succeeds (C17_dialog_delivers); the sending side succeeds exactly when every block is "
+             "acknowledged (C17_sender, C17_sender_nak_fails).",
+        note=NOTE_COMMON + " Partial: contention (both sides sending ENQ), a corrupted length byte (the receiver then waits for a different number of bytes), the T1-T4 timers the library "
+             "does not implement and the serial driver are outside; wait_for is modelled as accumulation of bytes.",
+        technique="Rocq proof (byte-level machine, corollaries of the C16 codec theorems, induction over blocks) + translator-regenerated constants + in-Coq differential correspondence on a real SecsIProtocol",
+        design="5/C17",
+    ),
     "C11": dict(
         text="Theorems (Props/C11.v): for each of the 8 configured defaults and EVERY history of operator switches, S1F15/S1F17 and event enable/disable, the "
              "model's control state is E30's, what it sends (S1F1 probe, S1F16/S1F18 with the code, collection events when enabled) is among what E30 admits and "
